@@ -16,12 +16,18 @@ import sys
 
 
 def main() -> int:
-    real_stdout = os.fdopen(os.dup(1), "w")
+    from . import wal
+
+    fd = os.dup(1)
+    real_stdout = os.fdopen(fd, "w")
+    wal.attach(fd)
     faulthandler.enable()
     raw = sys.stdin.read()
     plan = json.loads(raw)
+    # the parent enforces the hard limit (and attributes the kill with the write-ahead markers);
+    # shortly before, every thread's stack is dumped to stderr for the report
     hard = float(plan.get("hard_timeout_s", 600))
-    faulthandler.dump_traceback_later(hard, exit=True)
+    faulthandler.dump_traceback_later(max(1.0, hard - 5.0), exit=False)
     world = plan.get("world", "compiler")
     from .simfs import HarnessError
 
